@@ -133,7 +133,53 @@ func (p *Prog) isDescendingSort(fn *ssa.Function) bool {
 				continue
 			}
 			cal := p.Callee(call)
-			if cal == nil || (cal.String() != "sort.SliceStable" && cal.String() != "sort.Slice") {
+			if cal == nil {
+				continue
+			}
+			name := p.funcDisplay(cal)
+			if i := strings.Index(name, "["); i >= 0 {
+				name = name[:i]
+			}
+			if name == "slices.SortFunc" || name == "slices.SortStableFunc" {
+				// three-way comparator (a, b): descending iff it is cmp.Compare(b, a) or -cmp.Compare(a, b);
+				// a subtraction of converted operands is not accepted (it overflows for large priorities)
+				var cmpFn *ssa.Function
+				switch f := call.Call.Args[1].(type) {
+				case *ssa.Function:
+					cmpFn = f
+				case *ssa.MakeClosure:
+					cmpFn, _ = f.Fn.(*ssa.Function)
+				}
+				if cmpFn == nil || len(cmpFn.Params) != 2 {
+					continue
+				}
+				for _, rs := range p.resultSyms(cmpFn, 0) {
+					neg := false
+					if rs.Op == "un" && rs.Name == "-" {
+						neg, rs = true, rs.Args[0]
+					}
+					if rs.Op != "call" || len(rs.Args) != 2 {
+						continue
+					}
+					cn := rs.Name
+					if i := strings.Index(cn, "["); i >= 0 {
+						cn = cn[:i]
+					}
+					if cn != "cmp.Compare" {
+						continue
+					}
+					a, b := cmpFn.Params[0].Name(), cmpFn.Params[1].Name()
+					x, y := rs.Args[0], rs.Args[1]
+					if x.Op != "param" || y.Op != "param" {
+						continue
+					}
+					if (!neg && x.Name == b && y.Name == a) || (neg && x.Name == a && y.Name == b) {
+						return true
+					}
+				}
+				continue
+			}
+			if name != "sort.SliceStable" && name != "sort.Slice" {
 				continue
 			}
 			mc, ok := call.Call.Args[1].(*ssa.MakeClosure)
